@@ -21,7 +21,12 @@ import (
 )
 
 // drawPeriod draws a non-degenerate, possibly unbounded period over seconds 0..6.
-func drawPeriod(t *rapid.T, label string) (*timepb.Period, int, int) {
+func drawPeriod(t *rapid.T, label string, mayBeAbsent ...bool) (*timepb.Period, int, int) {
+	if len(mayBeAbsent) > 0 && mayBeAbsent[0] && rapid.IntRange(0, 5).Draw(t, label+".none") == 2 {
+		// a booking that has no booked period (yet): it occupies no time at all, so it intersects nothing - not even
+		// an unbounded window
+		return nil, 0, 0
+	}
 	lo := rapid.IntRange(-1, 5).Draw(t, label+".lo") // -1: unbounded
 	hi := rapid.IntRange(lo+1, 7).Draw(t, label+".hi")
 	p := &timepb.Period{}
@@ -50,7 +55,7 @@ func TestBookingIntersects(t *testing.T) {
 		intersects := func(s span) bool { return max(s.lo, qlo) < min(s.hi, qhi) }
 		ids := []string{"b1", "b2", "b3"}
 		for _, id := range ids[:rapid.IntRange(0, 3).Draw(t, "ninit")] {
-			p, lo, hi := drawPeriod(t, "init."+id)
+			p, lo, hi := drawPeriod(t, "init."+id, true)
 			if _, err := m.CreateBooking(&traits.Booking{Id: id, Booked: p, Title: "t"}); err != nil {
 				t.Fatalf("create: %v", err)
 			}
@@ -129,7 +134,7 @@ func TestBookingIntersects(t *testing.T) {
 		transitions := 0
 		for i := 0; i < n; i++ {
 			id := rapid.SampledFrom(ids).Draw(t, "id")
-			p, lo, hi := drawPeriod(t, fmt.Sprintf("p%d", i))
+			p, lo, hi := drawPeriod(t, fmt.Sprintf("p%d", i), true)
 			old, exists := model[id]
 			if exists {
 				if _, err := m.UpdateBooking(&traits.Booking{Id: id, Booked: p, Title: fmt.Sprint("t", i)}); err != nil {
